@@ -9,13 +9,13 @@ for d in seeded/*/; do
   checks=$(python3 -c "import json;print(' '.join(json.load(open('$d/meta.json'))['checks_to_run']))")
   if ! git -C /repo diff --quiet; then echo "/repo dirty"; exit 9; fi
   base=$(python3 -c "import json;print(json.load(open('$d/meta.json')).get('base_patch',''))")
-  if [ -n "$base" ]; then git -C /repo apply $PWD/seeded/$base/patch.diff || { echo "$id BASE-PATCH-DOES-NOT-APPLY"; git -C /repo checkout -- .; continue; }; fi
-  if ! git -C /repo apply $PWD/$d/patch.diff; then echo "$id PATCH-DOES-NOT-APPLY"; git -C /repo checkout -- .; continue; fi
+  if [ -n "$base" ]; then git -C /repo apply $PWD/seeded/$base/patch.diff || { echo "$id BASE-PATCH-DOES-NOT-APPLY"; git -C /repo checkout -- . ; git -C /repo clean -fdq -- src; continue; }; fi
+  if ! git -C /repo apply $PWD/$d/patch.diff; then echo "$id PATCH-DOES-NOT-APPLY"; git -C /repo checkout -- . ; git -C /repo clean -fdq -- src; continue; fi
   for c in $checks; do
     out=$(bin/check $c --tier quick 2>&1); rc=$?
     if [ $rc -eq 1 ]; then res=DETECTED; elif [ $rc -eq 0 ]; then res=missed; else res=inconclusive; fi
     nsig=2; [ -n "$base" ] && nsig=40
     echo "$id $c $res :: $(echo "$out" | grep -A1 VIOLATION | grep signature | head -$nsig | cut -c1-150 | tr '\n' ' ')"
   done
-  git -C /repo checkout -- .
+  git -C /repo checkout -- . ; git -C /repo clean -fdq -- src
 done
